@@ -840,11 +840,59 @@ def q_responder_block_order(o, tier):
             'functions': ['Responder::filtered_block_connected']}
 
 
+def q_double_charge(o, tier):
+    """C10.M2: two concurrent submissions of the same (new) appointment. Thread A and thread B both run
+    Watcher::add_appointment. Bad run: each thread reads "no such appointment yet" (DBM::get_appointment_length, inside
+    Gatekeeper::add_update_appointment) before the other one has written the row (DBM::store_appointment /
+    update_appointment): both are charged for one stored appointment."""
+    funcs, idx, t_mir, err = load_mir('teos')
+    if funcs is None:
+        return {'verdict': 'inconclusive', 'reason': 'MIR dump failed'}
+
+    def alpha(c):
+        m = re.match(r'^DBM::(store_appointment|update_appointment|get_appointment_length)$', c)
+        if m:
+            return 'DBM::' + m.group(1)
+        return None
+    sk = SK.Skeletons(funcs, idx, teos_lock_name, alpha,
+                      event_filter=lambda ev: ev[0] == 'call' or (ev[0] in ('acq', 'rel') and ev[1] in ('locator_cache', 'users')))
+    fa = [n for n in funcs if re.match(r'^watcher::<impl at .*?>::add_appointment$', n)]
+    if len(fa) != 1:
+        return {'verdict': 'inconclusive', 'reason': 'entry point not found'}
+    tr = [t for t in sk.traces(fa[0]) if ('call', 'DBM::get_appointment_length') in t and (('call', 'DBM::store_appointment') in t or ('call', 'DBM::update_appointment') in t)]
+    tr = sorted(set(tr))
+    if sk.problems or not tr:
+        return {'verdict': 'inconclusive', 'reason': 'skeleton not found: %s (%d traces)' % (sk.problems[:2], len(tr))}
+    failed, queries, solver_s = [], 0, 0.0
+    for ta in tr:
+        ia_len = ta.index(('call', 'DBM::get_appointment_length'))
+        ia_st = [k for k, e in enumerate(ta) if e in (('call', 'DBM::store_appointment'), ('call', 'DBM::update_appointment'))]
+        for tb in tr:
+            ib_len = tb.index(('call', 'DBM::get_appointment_length'))
+            ib_st = [k for k, e in enumerate(tb) if e in (('call', 'DBM::store_appointment'), ('call', 'DBM::update_appointment'))]
+            text = _interleave_query(ta, tb, [('a', ia_len, 'b', min(ib_st)), ('b', ib_len, 'a', min(ia_st))], None)
+            v, out, dt = smt(text)
+            queries += 1
+            solver_s += dt
+            if v == 'inconclusive':
+                return {'verdict': 'inconclusive', 'reason': out[:200]}
+            if v == 'sat':
+                failed.append({'description': 'double charge: two concurrent submissions of one appointment can both read "not stored yet" before either stores it',
+                               'function': 'Watcher::add_appointment | Watcher::add_appointment',
+                               'schedule': {'A': [list(e) for e in ta], 'B': [list(e) for e in tb], 'model': out[:500]}})
+                break
+        if failed:
+            break
+    return {'verdict': 'fails' if failed else 'holds', 'failed': failed, 'queries': queries, 'solver_s': solver_s,
+            'witness': {'traces': len(tr), 'sample': [list(e) for e in tr[0]]}, 'functions': sorted(short(x) for x in sk.functions_seen)}
+
+
 QUERIES = {
     'lock_order': q_lock_order,
     'api_guard': q_api_guard,
     'poll_best_tip': q_poll_best_tip,
     'missed_breach': q_missed_breach,
+    'double_charge': q_double_charge,
     'cv_waiter': q_cv_waiter,
     'plugin_must_record': q_plugin_must_record,
     'plugin_register_verify': q_plugin_register_verify,
